@@ -414,6 +414,15 @@ func (c *PCluster) RaceWriteNewTerm(i int, id int, term int64) string {
 	}
 	ntDone := make(chan string, 1)
 	go func() { ntDone <- c.NewTerm(i, term) }()
+	// a second client write arrives while the first one is in the append section and the new-term request
+	// waits for it: it must find the node fenced (it queues behind the new-term request)
+	w2done := make(chan struct{})
+	go func() {
+		time.Sleep(40 * time.Millisecond)
+		cb2 := writeCb{done: make(chan string, 1)}
+		lc.Write(context.Background(), &proto.WriteRequest{Shard: &shard, Puts: []*proto.PutRequest{{Key: fmt.Sprintf("w%d", id+500000), Value: []byte(fmt.Sprint(id + 500000))}}}, cb2)
+		close(w2done)
+	}()
 	var rep string
 	select {
 	case rep = <-ntDone:
@@ -423,6 +432,10 @@ func (c *PCluster) RaceWriteNewTerm(i int, id int, term int64) string {
 		rep = <-ntDone
 	}
 	<-wdone
+	select {
+	case <-w2done:
+	case <-time.After(2 * time.Second):
+	}
 	if !strings.HasPrefix(rep, "head=") {
 		return rep
 	}
